@@ -273,12 +273,15 @@ pub fn iter_strategy(p: &Profile) -> BoxedStrategy<IterSpec> {
         }
         items
     });
-    (select(kinds), items, vec(0u8..slots, 0..=3), hint, panic_at, loose, fx_strategy(p))
-        .prop_map(|(kind, items, slots, hint, panic_at, loose, fx)| {
+    // an upper bound that is too small (String ignores upper bounds altogether)
+    let upper: BoxedStrategy<Option<usize>> =
+        if p.lying_hints { prop_oneof![8 => Just(None), 2 => Just(Some(0usize)), 2 => (0usize..=3).prop_map(Some)].boxed() } else { Just(None).boxed() };
+    (select(kinds), items, vec(0u8..slots, 0..=3), hint, panic_at, loose, fx_strategy(p), upper)
+        .prop_map(|(kind, items, slots, hint, panic_at, loose, fx, upper)| {
             let loose = if hint.is_some() { None } else { loose };
             let slots = if kind == IterKind::LeanSlots { slots } else { vec![] };
             let items = if kind == IterKind::LeanSlots { vec![] } else { items };
-            IterSpec { kind, items, slots, hint, panic_at, loose, fx }
+            IterSpec { kind, items, slots, hint, panic_at, loose, fx, upper }
         })
         .boxed()
 }
@@ -370,6 +373,9 @@ pub fn op_strategy(p: &Profile) -> BoxedStrategy<Op> {
         2 => (slot(), vec(select(vec![0x41u8, 0x80, 0xbf, 0xc2, 0xe0, 0xed, 0xf0, 0xf4, 0xff, 0x7f, 0xa0, 0x9f]), 0..=24))
             .prop_map(|(slot, b)| Op::FromUtf8Lossy { slot, hex: hex_encode(&b) }),
         2 => (slot(), vec(select(vec![0x41u16, 0xe9, 0x7ff, 0x800, 0xd7ff, 0xd800, 0xdbff, 0xdc00, 0xdfff, 0xe000, 0xfffd]), 0..=20), any::<bool>())
+            .prop_map(|(slot, units, lossy)| Op::FromUtf16 { slot, units, lossy }),
+        // longer, mostly valid UTF-16: runs of ASCII and Latin-1 units (block-wise fast paths), the odd wide unit
+        1 => (slot(), vec(select(vec![0x41u16, 0x61, 0x7a, 0x20, 0xe9, 0xfc, 0x80, 0xff, 0x7f, 0x100, 0x20ac, 0xd83d, 0xde00]), 0..=40), any::<bool>())
             .prop_map(|(slot, units, lossy)| Op::FromUtf16 { slot, units, lossy }),
         3 => (slot(), iter_strategy(p)).prop_map(|(slot, it)| Op::Collect { slot, it }),
         3 => (slot(), pieces_strategy(p), any::<bool>()).prop_map(|(slot, d, try_)| Op::Display { slot, d, try_ }),
@@ -534,7 +540,7 @@ pub mod bytes {
         };
         let panic_at = if u.ratio(1u8, 4u8).unwrap_or(false) { Some(u.int_in_range(0u16..=8).unwrap_or(0)) } else { None };
         let loose = if hint.is_none() && u.ratio(1u8, 5u8).unwrap_or(false) { Some(*u.choose(&[1u16, 7, 40, 1000]).unwrap_or(&7)) } else { None };
-        IterSpec { kind, items, slots, hint, panic_at, loose, fx: None }
+        IterSpec { kind, items, slots, hint, panic_at, loose, fx: None, upper: None }
     }
 
     fn pieces(u: &mut Unstructured) -> Pieces {
